@@ -66,12 +66,18 @@ func (r *c04Reg) id(v reflect.Value) string {
 	case c04TypT1:
 		return "T1:" + v.Interface().(c04T1).Tag
 	case c04TypPT1:
+		if v.IsNil() {
+			return "*T1:<nil>"
+		}
 		return "*T1:" + v.Interface().(*c04T1).Tag
 	case c04TypT2:
 		return "T2:" + v.Interface().(c04T2).Tag
 	case c04TypNS:
 		return "NS:" + string(v.Interface().(c04NS))
 	case c04TypCh:
+		if v.IsNil() {
+			return "chan:<nil>"
+		}
 		return "chan:" + r.chTags[v.Pointer()]
 	case reflect.TypeOf(c04Both{}):
 		return "Both:" + v.Interface().(c04Both).Tag
@@ -159,6 +165,9 @@ type c04Config struct {
 	Masks  []int  `json:"presence_mask_per_scope_inner_first"` // bit i: type i registered
 	API    string `json:"api"`
 	Twice  bool   `json:"registered_twice"`
+	// Nil: the values registered in the innermost scope for *T1, the channel and (through a *T1) I are
+	// typed nils; a typed nil is a registered value like any other
+	Nil bool `json:"typed_nil_values_in_inner_scope,omitempty"`
 }
 
 func (c c04Config) String() string {
@@ -172,7 +181,7 @@ func (c c04Config) String() string {
 		}
 		parts = append(parts, fmt.Sprintf("scope%d{%s}", s, strings.Join(ts, ",")))
 	}
-	return strings.Join(parts, " <- ") + " api=" + c.API + fmt.Sprintf(" twice=%v", c.Twice)
+	return strings.Join(parts, " <- ") + " api=" + c.API + fmt.Sprintf(" twice=%v typed-nil-inner=%v", c.Twice, c.Nil)
 }
 
 // c04Build creates real injectors (inner first; parent chain set) and the model scopes.
@@ -191,6 +200,14 @@ func c04Build(c c04Config) (inner inject.Injector, scopes []c04Scope, reg *c04Re
 				c04Register(injs[s], ti, old, "Map")
 			}
 			v := reg.mkValue(ti, fmt.Sprintf("s%d", s), s+ti)
+			if c.Nil && s == 0 {
+				switch ti {
+				case 1, 5:
+					v = reflect.ValueOf((*c04T1)(nil))
+				case 4:
+					v = reflect.Zero(c04TypCh)
+				}
+			}
 			c04Register(injs[s], ti, v, c.API)
 			sc[c04Types[ti]] = v
 		}
@@ -840,7 +857,7 @@ func c04Run(r *core.Run) {
 	if r.Thorough() {
 		r.SetBudget(10 * time.Minute)
 	}
-	r.Rule = "engine E: every presence assignment of 7 types (struct, pointer, second struct, named string, send-only channel via Set, interface I with two implementors, interface J) to 1..3 nested injectors x every target type for Value(); every signature of arity 0..2 x every 1- and 2-scope assignment for Invoke() through reflect.MakeFunc functions and hand-declared FastInvoker types; Apply() on two struct targets; registration API {Map/MapTo, Set} x {once, re-registered}; oracle = reference resolver (exact in nearest scope, else the SET of same-scope implementors, else outer); non-trivial = resolution that needs an outer scope or an implementor, or fails"
+	r.Rule = "engine E: every presence assignment of 7 types (struct, pointer, second struct, named string, send-only channel via Set, interface I with two implementors, interface J) to 1..3 nested injectors x every target type for Value(); every signature of arity 0..2 x every 1- and 2-scope assignment for Invoke() through reflect.MakeFunc functions and hand-declared FastInvoker types; Apply() on two struct targets; registration API {Map/MapTo, Set} x {once, re-registered} x {values, typed nil pointer / nil channel in the innermost scope}; oracle = reference resolver (exact in nearest scope, else the SET of same-scope implementors, else outer); non-trivial = resolution that needs an outer scope or an implementor, or fails"
 	r.Assumptions = []string{"reflect.Type.Implements is trusted for the 'implements' relation", "which of several same-scope implementors is picked is free (map order): membership in the set is checked"}
 	sigs := c04Signatures()
 	r.Bounds["types"] = c04Names
@@ -858,7 +875,9 @@ func c04Run(r *core.Run) {
 	apis := []struct {
 		api   string
 		twice bool
-	}{{"Map", false}, {"Set", false}, {"Map", true}, {"Set", true}}
+		nilv  bool
+	}{{"Map", false, false}, {"Set", false, false}, {"Map", true, false}, {"Set", true, false}, {"Map", false, true}, {"Set", true, true}}
+	const c04NilBits = 1<<1 | 1<<4 | 1<<5
 	r.Parallel(func(w, nw int, l *core.Local) {
 		for ci := w; ci < len(cfgs); ci += nw {
 			if ci%512 == 0 && r.Expired() {
@@ -869,7 +888,10 @@ func c04Run(r *core.Run) {
 					continue
 				}
 				c := cfgs[ci]
-				c.API, c.Twice = a.api, a.twice
+				c.API, c.Twice, c.Nil = a.api, a.twice, a.nilv
+				if c.Nil && c.Masks[0]&c04NilBits == 0 {
+					continue
+				}
 				l.States++
 				for ti := range c04Types {
 					l.Evals++
@@ -906,40 +928,46 @@ func c04Run(r *core.Run) {
 			if ci%64 == 0 && r.Expired() {
 				return
 			}
-			c := icfgs[ci]
-			l.States++
-			for si, sig := range sigs {
-				for _, fast := range []bool{false, true} {
-					bad, ok := c04CheckInvoke(c, sig, fast)
-					if !ok {
-						continue
-					}
-					l.Evals++
-					l.Transitions++
-					l.Traces++
-					if len(sig) > 0 {
-						l.NonTrivial++
-					}
-					if bad != "" {
-						l.Class("mismatch")
-						l.Violate(fmt.Sprintf("invoke/fast=%v/arity=%d", fast, len(sig)), bad+fmt.Sprintf(" [signature %v, %s]", sig, c.String()), c04Case{Config: c, What: "invoke", Sig: sig, Fast: fast})
-					} else {
-						l.Class(fmt.Sprintf("invoke:fast=%v", fast))
-						if (ci+si)%3001 == 0 {
-							l.Sample(map[string]interface{}{"config": c.String(), "signature": sig, "fast": fast})
+			for _, nilv := range []bool{false, true} {
+				c := icfgs[ci]
+				c.Nil = nilv
+				if nilv && c.Masks[0]&c04NilBits == 0 {
+					continue
+				}
+				l.States++
+				for si, sig := range sigs {
+					for _, fast := range []bool{false, true} {
+						bad, ok := c04CheckInvoke(c, sig, fast)
+						if !ok {
+							continue
+						}
+						l.Evals++
+						l.Transitions++
+						l.Traces++
+						if len(sig) > 0 {
+							l.NonTrivial++
+						}
+						if bad != "" {
+							l.Class("mismatch")
+							l.Violate(fmt.Sprintf("invoke/fast=%v/arity=%d", fast, len(sig)), bad+fmt.Sprintf(" [signature %v, %s]", sig, c.String()), c04Case{Config: c, What: "invoke", Sig: sig, Fast: fast})
+						} else {
+							l.Class(fmt.Sprintf("invoke:fast=%v", fast))
+							if (ci+si)%3001 == 0 {
+								l.Sample(map[string]interface{}{"config": c.String(), "signature": sig, "fast": fast})
+							}
 						}
 					}
 				}
-			}
-			for _, withJ := range []bool{false, true} {
-				l.Evals++
-				l.Transitions++
-				l.Traces++
-				if bad := c04CheckApply(c, withJ); bad != "" {
-					l.Class("mismatch")
-					l.Violate(fmt.Sprintf("apply/withJ=%v", withJ), bad+" ["+c.String()+"]", c04Case{Config: c, What: "apply", Fast: withJ})
-				} else {
-					l.Class("apply")
+				for _, withJ := range []bool{false, true} {
+					l.Evals++
+					l.Transitions++
+					l.Traces++
+					if bad := c04CheckApply(c, withJ); bad != "" {
+						l.Class("mismatch")
+						l.Violate(fmt.Sprintf("apply/withJ=%v", withJ), bad+" ["+c.String()+"]", c04Case{Config: c, What: "apply", Fast: withJ})
+					} else {
+						l.Class("apply")
+					}
 				}
 			}
 		}
